@@ -3,6 +3,7 @@ import copy as _copy
 
 from .. import core
 from .. import annot
+from .c19_reach import Reach
 
 PID = 'C20'
 DRV = 'drv_c20'
@@ -14,7 +15,10 @@ REGISTRY = {
             'decimal key decides numeric equality m*10^e = m\'*10^e\' so int 1 == float 1.0; insensitive to permuting the mods of one '
             'position; one sensitivity theorem per perturbation: value, multiplier, position, interval bound/flag/mods, interval '
             'count, charge, drop, duplicate, residue) and of mod_dict / add_mod_dict / strip / dict / create_annotation '
-            '(add_get_inverse, create_dict, strip_spec); the model is tied to /repo by correspondence on generated annotations and '
+            '(add_get_inverse, create_dict, strip_spec) including the text level on the C01 serializer/parser models: strip + '
+            'add_mod_dict(mod_dict) serializes to the original string for every annotation, and the str-level wrappers '
+            'add_mods(strip_mods(s), get_mods(s)) / add_mods(*pop_mods(s)) return the string of the canonical annotation s denotes; '
+            'the model is tied to /repo by correspondence on generated annotations and '
             'every single-field perturbation; the oracle evaluates the property clauses on the implementation, including '
             'independence of copies (mutate the copy, re-dump the source)',
     'note': 'trusted: Lean kernel, axioms propext/Classical.choice/Quot.sound, the correspondence harness; float values are read through '
@@ -454,6 +458,26 @@ def run(chk):
     chk.rule = ('generated annotations (all modification kinds, up to 4 mods per position, multipliers, int/float twin values) x '
                 '{copy, order permutation, each single-field perturbation, unrelated annotation}; non-trivial = at least one '
                 'modification present; distinct = distinct protocol line')
+    A = pp.ProFormaAnnotation
+    from peptacular.proforma import input_convert as ic
+    from peptacular.sequence import sequence_funcs as sf
+    TYPED = 'raised for an input of a wrong Python type; the inputs of the model are typed'
+    reach = Reach([A.__eq__, A.copy, A.dict, A.mod_dict, A.add_mod_dict, A.pop_mods, A.strip, A.add_labile_mods,
+                   A.add_unknown_mods, A.add_nterm_mods, A.add_cterm_mods, A.add_internal_mods, A.add_intervals,
+                   A.add_charge_adducts, A.add_isotope_mods, A.add_static_mods, A.get_internal_mods_by_index,
+                   pp.create_annotation, dc.Mod.__eq__, dc.Mod.__hash__, dc.Interval.__eq__, dc.Interval.__hash__,
+                   dc.are_mods_equal, dc.are_intervals_equal, ic.convert_to_mod, ic.fix_list_of_mods, ic.fix_dict_of_mods,
+                   ic.fix_interval_input, ic.fix_intervals_input, sf.get_mods, sf.add_mods, sf.pop_mods, sf.strip_mods,
+                   sf.sequence_to_annotation],
+                  outside={'convert_to_mod': {'raise ValueError(f"Invalid mod input: {mod}")': TYPED},
+                           'fix_list_of_mods': {'raise ValueError(f"Invalid mod input: {mods}")': TYPED},
+                           'fix_intervals_input': {'raise ValueError(f"Invalid interval input: {intervals}")': TYPED},
+                           'ProFormaAnnotation.add_internal_mods': {
+                               'if not append:': 'add_internal_mods(None) is not reachable through add_mod_dict (called only '
+                                                 'with a non-empty dict)',
+                               'self.internal_mods = None': 'same', 'return': 'same'}})
+    reach.__enter__()
+
     # ------------------------------------------------------------------ corpus (past failures first)
     def o_corpus(c):
         a, b = pp.parse(c['a']), pp.parse(c['b'])
@@ -654,6 +678,12 @@ def run(chk):
         if rng.random() < 0.2:
             d = {k: v for k, v in d.items() if not isinstance(k, int)}
         adds.append((annot.dump(a), show_dict(d, sort=False), rng.random() < 0.5, rng.random() < 0.3))
+
+    # directed: every named key with None (replace clears the field, append leaves it), on annotations that have it set
+    for key in ('isotope', 'static', 'labile', 'unknown', 'nterm', 'cterm', 'intervals', 'charge', 'charge_adducts'):
+        for app in (False, True):
+            for a in anns[:6]:
+                adds.append((annot.dump(a, sort_internal=False), f'{key}:N', app, False))
 
     def parse_dict(s):
         d = {}
@@ -866,6 +896,12 @@ def run(chk):
 
     chk.oracle('strip', osel, o_strip, nontrivial_fn=nontriv, key_fn=lambda d: d)
 
+    reach.__exit__()
+    rep = reach.report()
+    chk.notes.append({'reach_of_modelled_functions': rep})
+    if rep.get('available'):
+        chk.count('modelled_lines_total', rep['lines_of_modelled_functions'])
+        chk.count('modelled_lines_executed', rep['lines_executed'])
     if tier == 'thorough':
         chk.leanchecker(['PeptVerif.Props.C20', 'PeptVerif.Model.AnnotEq', 'PeptVerif.Model.ModDict'])
     return chk.finish(classify)
